@@ -25,7 +25,25 @@ def run_variant(v):
     tmp = tempfile.mkdtemp(prefix="vst_")
     try:
         repl = {}
-        for e in v["edits"]:
+        # optional base: an independently authored behaviour-preserving patch kept
+        # under /verif/benign (applied first; `edits` then work on the patched text)
+        if v.get("patch"):
+            import re
+            pd = os.path.join(VERIF, v["patch"])
+            files = re.findall(r'^\+\+\+ b/(\S+)', open(pd).read(), re.M)
+            tree = os.path.join(tmp, "tree")
+            for f in files:
+                dst = os.path.join(tree, f)
+                os.makedirs(os.path.dirname(dst), exist_ok=True)
+                if os.path.exists(os.path.join(REPO, f)):
+                    shutil.copy(os.path.join(REPO, f), dst)
+            pr = subprocess.run(["patch", "-p1", "-s", "-d", tree, "-i", pd], capture_output=True, text=True)
+            if pr.returncode != 0:
+                return (v, "skipped", "base patch does not apply: " + pr.stdout[-200:])
+            for f in files:
+                if f.endswith(".go"):
+                    repl[os.path.join(REPO, f)] = open(os.path.join(tree, f)).read()
+        for e in v.get("edits", []):
             path = os.path.join(REPO, e["file"])
             src = repl.get(path) or open(path).read()
             if src.count(e["old"]) != 1:
